@@ -31,7 +31,9 @@ ASSUMPTIONS = ["clauses are evaluated for slots of components that are in the co
 LEVEL_NOTE = ("configuration space only (the property quantifies over configurations); the only schedule dimension is "
               "listing / link creation order; trusted base: the classifier in this file")
 AD_KINDS = {"pass": {"kind": "scale", "f": 2}, "delay": {"kind": "delay_fixed", "d": 1}, "push": {"kind": "next"},
-            "push2": {"kind": "linear"}, "nobranch": {"kind": "nobranch"}, "delay_nb": {"kind": "delay_pull", "n": 1, "x": 0}}
+            "push2": {"kind": "linear"}, "nobranch": {"kind": "nobranch"}, "delay_nb": {"kind": "delay_pull", "n": 1, "x": 0},
+            # a dependency-breaking delay adapter: neither push-based nor no-branch, validation must look through it
+            "delay_nodep": {"kind": "delay_push"}}
 PUSH_BASED = {"push", "push2"}
 NO_BRANCH = {"push", "push2", "nobranch", "delay_nb"}
 
@@ -85,7 +87,7 @@ def gen_tree(tape, out_kind, inputs_free, depth=0, path_len=0, force_leaf=False)
         if go_adapter:
             kinds = ["pass", "delay", "nobranch", "delay_nb"]
             if out_kind != "static":
-                kinds += ["push", "push2"]
+                kinds += ["push", "push2", "delay_nodep"]
             k = tape.choice(kinds)
             sub = gen_tree(tape, out_kind, inputs_free, depth + 1, path_len + 1)
             children.append({"ad": k, "children": sub})
